@@ -23,6 +23,11 @@ CLAIMED = {
    text="Generated-input search: 20000 (quick) scripts over lists, immutable and (unmutated) mutable vectors, hash maps, hash sets, strings, byte vectors and scalars nested to depth 3, with internal sharing and collections as keys; ~60 operations incl. boundary and out-of-range indices (an error is expected); per equality step: reflexivity, symmetry, a copy built with different sharing is equal?, a copy differing in one leaf and a copy with the same leaves under a different nesting are not, and hash-ref / hash-contains? / hashset-contains? / member / hash-length agree with that. Every result is compared with the model's canonical value. JIT on and off.",
    note="Trusted: the model's operation semantics, taken from the doc comments of steel-core's primitives (e.g. hashset-difference is documented and implemented as the symmetric difference; hash-union is left biased). Floats are left to C10; mutation of vectors to C01/C04.",
    design="DESIGN.md section 4, C11"),
+ "C12": dict(
+   technique="property-based testing / fuzzing of the reader and writer: (a) constructor-built data written and read back against a model's canonical form, (b) generated and mutated texts through Parser::parse (lowered and raw) and the run time read with a span-inside-text oracle, (c) print/parse fixpoint on generated programs",
+   text="Generated-input search per quick run: 4000 batches of 8 data (all number kinds incl. -0.0 / subnormal / inf / nan / bignums / ratios, 28 characters incl. controls and astral, strings over them, plain symbols, proper and improper lists, vectors, byte vectors, quotation forms, depth <=3) built from constructors, written with write and read back with read: the datum read back must have the model's canonical form and the written text must parse as exactly one form; 12000 texts (token soup over 80 lexical fragments, well formed data with 1-4 character-level mutations, arbitrary unicode): no panic / abort in Parser::parse, Parser::parse_without_lowering and read, error spans inside the text; 4000 programs / quoted data: print(parse(t)) is a fixpoint of print . parse. Bounded by the alphabets and sizes; no proof.",
+   note="Trusted: the worker's `parse` / `parse-raw` specials (thin wrappers over Parser::parse / parse_without_lowering), the canonical value walker. Clause (c) uses the un-lowered reader output (lowering introduces generated names that are not meant to be readable). Symbols needing |...| and unquote forms are listed known findings, excluded by construction.",
+   design="DESIGN.md section 4, C12"),
  "C02": dict(
    technique="differential property-based testing: generated programs and evaluation histories run under 7 (quick) / 24 (thorough) combinations of the optimisation switches (JIT, inlining, recursive inlining, closure lifting, module inlining), all compared with each other and with the reference interpreter",
    text="Generated-input search: each generated program / history (same generators as C01 and C06) is executed in forked workers under every selected combination of STEEL_JIT, STEEL_INLINE, STEEL_INLINE_RECURSIVE, STEEL_CLOSURE_LIFTING and STEEL_MODULE_INLINE, as top-level text and as a module; values, output and outcome must be identical across configurations (and equal to the reference interpreter). A failure is classed jitdiv (only the JIT differs) or cfgdiv. Bounded by the generators; no proof.",
